@@ -9,12 +9,20 @@ corresponding column of M.  Superposition, constants, length, zero phase (2049-s
 the tone ladder (4096-sample record) and the retH clause are separate parts.
 
 Parts
-  operator : case = (cfg, N, kind, seed)        N in {17 (orders<=4), 28, 64, 257}
-  zerophase: case = (cfg, kind)                 N = 2049
-  tone     : case = (cfg, kind)                 N = 4096
-  retH     : case = (cfg, N, container)         N in {28, 64, 257, 4096}   (LPF only)
+  operator  : case = (cfg, N, kind, seed)       N in {17 (orders<=4), 28, 64, 257}
+  operator-x: same case form, the EXTENDED kinds (see below); quick: N <= 64, thorough: every N
+  zerophase : case = (cfg, kind)                N = 2049
+  tone      : case = (cfg, kind)                N = 4096
+  retH      : case = (cfg, N, container)        N in {28, 64, 257, 4096}   (LPF only)
 cfg = (dev, order, cutoff/fs, fs, src) ; src='gv' (fs taken from gv.fs) or 'arg' (LPF(fs=...),
 gv deliberately left at the OTHER rate).
+
+Extended kinds (added after seeded wave 3).  The property is scale free (linearity), so every part also runs on
+  * an AMPLITUDE axis: the same waveforms multiplied by AMPS = 1e-12, 1e-9, 1e6 (1 is the base kind), judged with
+    tolerances RELATIVE to the amplitude - signal, noise and the polarisation rows carry different amplitudes in one call;
+  * RIPPLE-ON-DC inputs D + e*w (RIPPLES: (D, e/D) = (1, 1e-6), (-1e6, 1e-9), (1e-9, 1e-3)) : expected D + e*F(w);
+  * the entry-point MODE axis: every LPF container kind (with / without / only noise, constant + noise) is run in
+    retH=True mode as well as in plain mode (fs=... mode is part of cfg), through the signal AND the noise path.
 """
 from __future__ import annotations
 
@@ -40,6 +48,9 @@ N_SHORT = 17                  # "longer than the 16-sample edge padding": accept
 N_SYM = 2049
 N_TONE = 4096
 N_RETH = (28, 64, 257, 4096)
+N_EXT_QUICK = (17, 28, 64)    # record lengths of the extended kinds in the quick tier (thorough: all of n_op)
+AMPS = (1e-12, 1e-9, 1e6)     # amplitude axis (1.0 = the base kinds): pA / nA level records and a large one
+RIPPLES = ((1.0, 1e-6), (-1e6, 1e-9), (1e-9, 1e-3))     # (DC level D, ripple amplitude relative to |D|)
 
 # ---- tolerances (see notes/C11.md for the justification of each)
 TOL_LIN = 1e-10      # relative to max|M| ; measured <= 5e-14 (recursion rounding at cutoff 0.01 fs, order 8)
@@ -159,6 +170,33 @@ def ref_matrix(cfg, N):
 # --------------------------------------------------------------------------- basis kinds
 LPF_KINDS = ('nd-f64', 'nd-int', 'nd-scaled', 'nd-retH', 'es', 'es+noise', 'es-noise-only', 'es-const+noise', 'es-cplx-dtype')
 BPF_KINDS = ('os1', 'os1-f64', 'os1-scaled', 'os1+noise', 'os1-noise-only', 'os2', 'os2+noise', 'os2-const+noise', 'os2-npol')
+# extended kinds: entry-point mode (retH) x container, amplitude axis, ripple on a DC level
+LPF_XKINDS = (('es-retH', 'es+noise-retH', 'es-noise-only-retH', 'es-const+noise-retH')
+              + tuple(f'{c}-amp:{i}' for c in ('nd', 'es+noise') for i in range(len(AMPS)))
+              + tuple(f'{c}-ripple:{i}' for c in ('nd', 'es+noise') for i in range(len(RIPPLES))))
+BPF_XKINDS = (tuple(f'{c}-amp:{i}' for c in ('os1', 'os2+noise') for i in range(len(AMPS)))
+              + tuple(f'{c}-ripple:{i}' for c in ('os1', 'os2+noise') for i in range(len(RIPPLES))))
+ZC = (0.3 - 2j)               # fixed complex coefficient of the BPF alphabets
+
+
+def amp(i, shift=0):
+    """member of the amplitude axis; shift walks cyclically so that the components of ONE call carry DIFFERENT amplitudes"""
+    return AMPS[(i + shift) % len(AMPS)]
+
+
+def ripple(i, shift=0, cplx=False):
+    """-> (DC level D, ripple amplitude e).  BPF: complex level and complex ripple coefficient"""
+    D, r = RIPPLES[(i + shift) % len(RIPPLES)]
+    if cplx:
+        return D * (1 - 0.5j), abs(D) * r * ZC
+    return D, D * r
+
+
+def on_dc(N, k, D, e, dt=float):
+    """D + e*e_k as it is representable: -> (array, effective ripple coefficient e' with array[k] == D + e' exactly)"""
+    a = np.full(N, D, dtype=dt)
+    a[k] = D + e
+    return a, a[k] - D
 
 
 def n_op(order):
@@ -171,12 +209,39 @@ def perm(N, k):
     return (5 * k + 3) % N, (3 * k + 1) % N, N - 1 - k      # gcd(5,N)=gcd(3,N)=1 for N in {17,28,64,257}
 
 
+def kind_mode(kind):
+    """-> (base container kind, retH mode?, key suffix)"""
+    if kind.endswith('-retH'):
+        return (kind if kind == 'nd-retH' else kind[:-5]), True, ':retH-mode'
+    if '-amp:' in kind:
+        return kind, False, ':amp'
+    if '-ripple:' in kind:
+        return kind, False, ':ripple'
+    return kind, False, ''
+
+
 def basis_input(dev, kind, N, k):
     """-> (input object, slots).  slot = (attr, row, spec) ; spec = ('b', coef, idx) expected coef*M[:,idx] |
-    ('c', value) expected the constant | ('z',) expected zero"""
+    ('c', value) expected the constant | ('z',) expected zero | ('r', D, e, idx) expected D + e*M[:,idx]"""
     s1, s2, s3 = perm(N, k)
     if dev == 'LPF':
         from opticomlib.typing import electrical_signal as ES
+        if '-amp:' in kind:
+            cont, i = kind.split('-amp:')
+            i = int(i)
+            a0, a1 = amp(i), amp(i, 1)
+            if cont == 'nd':
+                return a0 * unit(N, k), [('signal', None, ('b', a0, k))]
+            return ES(a0 * unit(N, k), a1 * unit(N, s1)), [('signal', None, ('b', a0, k)), ('noise', None, ('b', a1, s1))]
+        if '-ripple:' in kind:
+            cont, i = kind.split('-ripple:')
+            i = int(i)
+            (D0, e0), (D1, e1) = ripple(i), ripple(i, 1)
+            x0, f0 = on_dc(N, k, D0, e0)
+            if cont == 'nd':
+                return x0, [('signal', None, ('r', D0, f0, k))]
+            x1, f1 = on_dc(N, s1, D1, e1)
+            return ES(x0, x1), [('signal', None, ('r', D0, f0, k)), ('noise', None, ('r', D1, f1, s1))]
         if kind in ('nd-f64', 'nd-retH'):
             return unit(N, k), [('signal', None, ('b', 1.0, k))]
         if kind == 'nd-int':
@@ -195,7 +260,28 @@ def basis_input(dev, kind, N, k):
             return ES(unit(N, k, complex), unit(N, s1, complex)), [('signal', None, ('b', 1.0, k)), ('noise', None, ('b', 1.0, s1))]
     else:
         from opticomlib.typing import optical_signal as OS
-        z = (0.3 - 2j)
+        z = ZC
+        if '-amp:' in kind:
+            cont, i = kind.split('-amp:')
+            i = int(i)
+            a0, a1, a2 = amp(i), amp(i, 1), amp(i, 2)
+            if cont == 'os1':
+                return OS(a0 * z * unit(N, k)), [('signal', None, ('b', a0 * z, k))]
+            return (OS(np.array([a0 * unit(N, k, complex), 1j * a1 * unit(N, s1)]), np.array([a2 * z * unit(N, s2), -a0 * unit(N, s3, complex)])),
+                    [('signal', 0, ('b', a0, k)), ('signal', 1, ('b', 1j * a1, s1)), ('noise', 0, ('b', a2 * z, s2)), ('noise', 1, ('b', -a0, s3))])
+        if '-ripple:' in kind:
+            cont, i = kind.split('-ripple:')
+            i = int(i)
+            R = [ripple(i, j, True) for j in range(3)]
+            x0, f0 = on_dc(N, k, R[0][0], R[0][1], complex)
+            if cont == 'os1':
+                return OS(x0), [('signal', None, ('r', R[0][0], f0, k))]
+            x1, f1 = on_dc(N, s1, R[1][0], R[1][1], complex)
+            x2, f2 = on_dc(N, s2, R[2][0], R[2][1], complex)
+            x3, f3 = on_dc(N, s3, np.conj(R[0][0]), np.conj(R[0][1]), complex)
+            return (OS(np.array([x0, x1]), np.array([x2, x3])),
+                    [('signal', 0, ('r', R[0][0], f0, k)), ('signal', 1, ('r', R[1][0], f1, s1)),
+                     ('noise', 0, ('r', R[2][0], f2, s2)), ('noise', 1, ('r', np.conj(R[0][0]), f3, s3))])
         if kind == 'os1':
             return OS(unit(N, k, complex)), [('signal', None, ('b', 1.0, k))]
         if kind == 'os1-f64':
@@ -244,15 +330,26 @@ class Fails:
 
 
 def run_basis(cfg, N, kind, M, scale):
+    """Tolerances are RELATIVE to the amplitude the component carries at the input (|coef| of its slot): a linear
+    recursion in IEEE arithmetic is scale covariant (exactly for powers of two, to rounding otherwise; no member of the
+    amplitude axis comes near under-/overflow: 1e-12 * the smallest tail kept is > 1e-300), so the rounding bound
+    TOL_LIN*max|M|*|coef| that holds at |coef| = 1 holds at every |coef|.  Ripple on a DC level D: the two rounding sources
+    add - TOL_CONST*|D| (DC-gain cancellation, which also covers the eps*|D| representation error of D + e) plus
+    TOL_LIN*max|M|*|e|."""
     dev = cfg[0]
+    base, reth, sfx = kind_mode(kind)
     fails = Fails()
     h = hashlib.sha256()
     worst = 0.0
     worst_c = 0.0
     for k in range(N):
-        inp, slots = basis_input(dev, kind, N, k)
-        if kind == 'nd-retH':
-            out, H = F(cfg, inp, retH=True)
+        inp, slots = basis_input(dev, base, N, k)
+        if reth:
+            r = F(cfg, inp, retH=True)
+            if not (isinstance(r, tuple) and len(r) == 2):
+                fails.add('LPF:retH:grid', f'k={k}: retH=True did not return (output, H)')
+                continue
+            out = r[0]
         else:
             out = F(cfg, inp)
         sig, noi = arrs(out)
@@ -267,7 +364,9 @@ def run_basis(cfg, N, kind, M, scale):
         if has_noise_slot and (noi is None or noi.shape != shp):
             fails.add(f'{dev}:length', f'k={k}: input noise shape {shp}, output noise {None if noi is None else noi.shape}')
             continue
-        if not has_noise_slot and noi is not None and (noi.shape != shp or np.max(np.abs(noi)) > TOL_LIN * scale):
+        # amplitude of the smallest component of this call: what "zero" is measured against
+        amin = min([1.0] + [abs(sp[1]) for _, _, sp in slots if sp[0] == 'b'] + [abs(sp[2]) for _, _, sp in slots if sp[0] == 'r'])
+        if not has_noise_slot and noi is not None and (noi.shape != shp or np.max(np.abs(noi)) > TOL_LIN * scale * amin):
             fails.add(f'{dev}:crosstalk:noise-from-nothing', f'k={k}: noise-free input produced noise')
         for attr, row, spec in slots:
             a = sig if attr == 'signal' else noi
@@ -278,20 +377,30 @@ def run_basis(cfg, N, kind, M, scale):
                 continue
             if spec[0] == 'b':
                 exp = spec[1] * M[:, spec[2]]
-                err = float(np.max(np.abs(got - exp))) / (scale * max(1.0, abs(spec[1])))
+                err = float(np.max(np.abs(got - exp))) / (scale * abs(spec[1]))
                 worst = max(worst, err)
                 if err > TOL_LIN:
-                    fails.add(f'{dev}:{cl}:matrix-mismatch',
-                              f'k={k}: {attr}{"" if row is None else f"[{row}]"} should be {spec[1]}*M[:,{spec[2]}], max dev {err:.3g} of max|M|', err)
+                    fails.add(f'{dev}:{cl}:matrix-mismatch{sfx}',
+                              f'k={k}: {attr}{"" if row is None else f"[{row}]"} should be {spec[1]}*M[:,{spec[2]}], max dev {err:.3g} of |coef|*max|M|', err)
+            elif spec[0] == 'r':
+                _, D, e, idx = spec
+                exp = D + e * M[:, idx]
+                tol = TOL_CONST * abs(D) + TOL_LIN * scale * abs(e)
+                err = float(np.max(np.abs(got - exp))) / tol * TOL_LIN          # <= TOL_LIN  <=>  deviation <= tol
+                worst = max(worst, err)
+                if err > TOL_LIN:
+                    fails.add(f'{dev}:{cl}:matrix-mismatch{sfx}',
+                              f'k={k}: {attr}{"" if row is None else f"[{row}]"} should be {D} + {e:.6g}*M[:,{idx}], max dev {float(np.max(np.abs(got - exp))):.3g}, '
+                              f'allowed {tol:.3g} (the ripple itself is {abs(e):.3g})', err)
             elif spec[0] == 'c':
                 err = float(np.max(np.abs(got - spec[1]))) / abs(spec[1])
                 worst_c = max(worst_c, err)
                 if err > TOL_CONST:
-                    fails.add(f'{dev}:const:{cl}', f'k={k}: constant {spec[1]} came back with rel. dev {err:.3g}', err)
+                    fails.add(f'{dev}:const:{cl}{sfx}', f'k={k}: constant {spec[1]} came back with rel. dev {err:.3g}', err)
             else:
                 err = float(np.max(np.abs(got)))
-                if err > TOL_LIN * scale:
-                    fails.add(f'{dev}:crosstalk:{cl}', f'k={k}: zero {attr} component came back non-zero ({err:.3g})', err)
+                if err > TOL_LIN * scale * amin:
+                    fails.add(f'{dev}:crosstalk:{cl}{sfx}', f'k={k}: zero {attr} component came back non-zero ({err:.3g})', err)
     return fails, h.hexdigest(), worst, worst_c
 
 
@@ -299,6 +408,7 @@ def run_basis(cfg, N, kind, M, scale):
 PAIRS = ('ramp/alt', 'rand')
 COEF_R = ((1.0, 1.0), (2.0, -0.5))
 COEF_C = ((1.0, 1.0), (2.0, -0.5), (1j, 0.5 - 1j))
+EXTS = tuple(('amp', i) for i in range(len(AMPS))) + tuple(('ripple', i) for i in range(len(RIPPLES)))
 
 
 def fields(pair, N, seed, cfg, cplx):
@@ -316,10 +426,32 @@ def fields(pair, N, seed, cfg, cplx):
     return rng.standard_normal(N), rng.standard_normal(N)
 
 
+_LCACHE = {}
+
+
+def dress(w, ext, shift, cplx):
+    """put the waveform w on the member `ext` of the amplitude / ripple axis.
+    -> (input array, inv) ; inv(expected F(w)) = expected output ; plus the absolute tolerance per unit of max|M|*max|w|"""
+    if ext is None:
+        return w, (lambda Fw: Fw), 1.0, 0.0
+    if ext[0] == 'amp':
+        s = amp(ext[1], shift)
+        return s * w, (lambda Fw: s * Fw), abs(s), 0.0
+    D, e = ripple(ext[1], shift, cplx)
+    return D + e * w, (lambda Fw: D + e * Fw), abs(e), TOL_CONST * abs(D)
+
+
 def run_lin(cfg, N, kind, M, scale, seed):
-    """kind = ('lin', container, pair, (a, b))"""
+    """kind = ('lin', container, pair, (a, b)[, ext]) ; ext = ('amp', i) | ('ripple', i): the combination a*x+b*y is put
+    on that member of the amplitude / ripple axis (each component of a container on a DIFFERENT member) and the
+    deviation is judged relative to the amplitude (amp) or with the two-term bound of run_basis (ripple)"""
     dev = cfg[0]
-    _, cont, pair, (a, b) = kind
+    cont, pair, (a, b) = kind[1:4]
+    ext = kind[4] if len(kind) > 4 else None
+    reth = cont.endswith('-retH')
+    if reth:
+        cont = cont[:-5]
+    sfx = (':retH-mode' if reth else '') + ('' if ext is None else f':{ext[0]}')
     fails = Fails()
     cplx = dev == 'BPF'
     x, y = fields(pair, N, seed, cfg, cplx)
@@ -329,45 +461,71 @@ def run_lin(cfg, N, kind, M, scale, seed):
     else:
         from opticomlib.typing import optical_signal as OS
         plain = lambda v: arrs(F(cfg, OS(v.copy())))[0]
-    Fx, Fy = plain(x), plain(y)
+    ck = (cfg, N, pair, seed)
+    if ck not in _LCACHE:            # F(x), F(y) through the plainest entry point: shared by the kinds of one (cfg, N, pair)
+        if len(_LCACHE) >= 8:
+            _LCACHE.clear()
+        _LCACHE[ck] = (plain(x), plain(y))
+    Fx, Fy = _LCACHE[ck]
     sc = scale * max(np.max(np.abs(x)), np.max(np.abs(y))) * max(1.0, abs(a), abs(b))
     worst = 0.0
 
-    def chk(key, got, exp, what):
+    def chk(key, got, exp, what, unit_amp=1.0, tol_abs=0.0):
         nonlocal worst
         if np.shape(got) != np.shape(exp):
             fails.add(f'{dev}:length', f'{what}: shape {np.shape(got)} expected {np.shape(exp)}')
             return
-        err = float(np.max(np.abs(got - exp))) / sc
+        dv = float(np.max(np.abs(got - exp)))
+        err = dv / (sc * unit_amp + tol_abs / TOL_LIN)          # <= TOL_LIN  <=>  dv <= TOL_LIN*sc*amp + tol_abs
         worst = max(worst, err)
         if not err <= TOL_LIN:
-            fails.add(key, f'{what}: max dev {err:.3g} (relative)', err)
+            fails.add(key, f'{what}: max dev {dv:.3g}, allowed {TOL_LIN * sc * unit_amp + tol_abs:.3g}', err)
+
+    def call(inp):
+        if not reth:
+            return F(cfg, inp)
+        r = F(cfg, inp, retH=True)
+        if not (isinstance(r, tuple) and len(r) == 2):
+            fails.add('LPF:retH:grid', 'retH=True did not return (output, H)')
+            return None
+        return r[0]
 
     chk(f'{dev}:matrix-apply', Fx, M @ x, 'F(x) vs M@x')
     chk(f'{dev}:matrix-apply', Fy, M @ y, 'F(y) vs M@y')
+    obs = np.zeros(0)
     if cont in ('nd', 'os1'):
-        Fz = plain(a * x + b * y)
-        chk(f'{dev}:superposition', Fz, a * Fx + b * Fy, f'F({a}x+{b}y) vs {a}F(x)+{b}F(y) [{cont}]')
-        obs = Fz
+        z, inv, ua, ta = dress(a * x + b * y, ext, 0, cplx)
+        out = call(z if dev == 'LPF' else OS(z))
+        if out is not None:
+            Fz = arrs(out)[0]
+            chk(f'{dev}:superposition{sfx}', Fz, inv(a * Fx + b * Fy), f'F({a}x+{b}y) vs {a}F(x)+{b}F(y) [{cont}{sfx}]', ua, ta)
+            obs = Fz
     elif cont == 'es+noise':
-        out = F(cfg, ES(a * x + b * y, a * y - b * x))
-        s, nz = arrs(out)
-        chk(f'{dev}:superposition', s, a * Fx + b * Fy, f'signal of F(es({a}x+{b}y, noise={a}y-{b}x))')
-        if nz is None:
-            fails.add(f'{dev}:length', 'noise component vanished')
-        else:
-            chk(f'{dev}:superposition:noise-path', nz, a * Fy - b * Fx, 'noise of the same call')
-        obs = s
+        z, inv, ua, ta = dress(a * x + b * y, ext, 0, cplx)
+        zn, invn, uan, tan_ = dress(a * y - b * x, ext, 1, cplx)
+        out = call(ES(z, zn))
+        if out is not None:
+            s, nz = arrs(out)
+            chk(f'{dev}:superposition{sfx}', s, inv(a * Fx + b * Fy), f'signal of F(es({a}x+{b}y, noise={a}y-{b}x)) [{sfx}]', ua, ta)
+            if nz is None:
+                fails.add(f'{dev}:length', 'noise component vanished')
+            else:
+                chk(f'{dev}:superposition:noise-path{sfx}', nz, invn(a * Fy - b * Fx), 'noise of the same call', uan, tan_)
+            obs = s
     else:  # os2+noise
-        out = F(cfg, OS(np.array([a * x + b * y, x]), np.array([y, a * y - b * x])))
+        d0 = dress(a * x + b * y, ext, 0, cplx)
+        d1 = dress(x, ext, 1, cplx)
+        d2 = dress(y, ext, 2, cplx)
+        d3 = dress(a * y - b * x, ext, 0, cplx)
+        out = call(OS(np.array([d0[0], d1[0]]), np.array([d2[0], d3[0]])))
         s, nz = arrs(out)
         if s.shape != (2, N) or nz is None or nz.shape != (2, N):
             fails.add(f'{dev}:length', f'2-pol output shapes {s.shape} / {None if nz is None else nz.shape}')
         else:
-            chk(f'{dev}:superposition', s[0], a * Fx + b * Fy, 'row 0 of the signal')
-            chk(f'{dev}:superposition:pol-row1', s[1], Fx, 'row 1 of the signal (= x)')
-            chk(f'{dev}:superposition:noise-path', nz[0], Fy, 'row 0 of the noise (= y)')
-            chk(f'{dev}:superposition:noise-path', nz[1], a * Fy - b * Fx, 'row 1 of the noise')
+            chk(f'{dev}:superposition{sfx}', s[0], d0[1](a * Fx + b * Fy), 'row 0 of the signal', d0[2], d0[3])
+            chk(f'{dev}:superposition:pol-row1{sfx}', s[1], d1[1](Fx), 'row 1 of the signal (= x)', d1[2], d1[3])
+            chk(f'{dev}:superposition:noise-path{sfx}', nz[0], d2[1](Fy), 'row 0 of the noise (= y)', d2[2], d2[3])
+            chk(f'{dev}:superposition:noise-path{sfx}', nz[1], d3[1](a * Fy - b * Fx), 'row 1 of the noise', d3[2], d3[3])
         obs = s
     return fails, hashlib.sha256(np.ascontiguousarray(obs).tobytes()).hexdigest(), worst, 0.0
 
@@ -377,9 +535,14 @@ CONSTS_C = (3.3, -1.0, 2 - 1j)
 
 
 def run_const(cfg, N, kind):
-    """kind = ('const', container)"""
+    """kind = ('const', container[, i]) ; i = index into AMPS: the same constants times that amplitude"""
     dev = cfg[0]
     cont = kind[1]
+    reth = cont.endswith('-retH')
+    if reth:
+        cont = cont[:-5]
+    g = [1.0, 1.0, 1.0] if len(kind) < 3 else [amp(kind[2], j) for j in range(3)]
+    sfx = (':retH-mode' if reth else '') + ('' if len(kind) < 3 else ':amp')
     fails = Fails()
     worst = 0.0
     h = hashlib.sha256()
@@ -394,31 +557,48 @@ def run_const(cfg, N, kind):
         err = float(np.max(np.abs(got - v))) / abs(v)
         worst = max(worst, err)
         if not err <= TOL_CONST:
-            fails.add(f'{dev}:const', f'{what}: constant {v} came back with rel. dev {err:.3g}', err)
+            fails.add(f'{dev}:const{sfx}', f'{what}: constant {v} came back with rel. dev {err:.3g}', err)
+
+    def call(inp):
+        if not reth:
+            return F(cfg, inp)
+        r = F(cfg, inp, retH=True)
+        if not (isinstance(r, tuple) and len(r) == 2):
+            fails.add('LPF:retH:grid', 'retH=True did not return (output, H)')
+            return None
+        return r[0]
 
     if dev == 'LPF':
         from opticomlib.typing import electrical_signal as ES
         if cont == 'nd':
-            for v in CONSTS_R:
-                chk(arrs(F(cfg, np.full(N, v)))[0], v, f'ndarray const {v}')
+            for j, v in enumerate(CONSTS_R):
+                v = v * g[j]
+                out = call(np.full(N, v))
+                if out is not None:
+                    chk(arrs(out)[0], v, f'ndarray const {v}')
         else:
-            s, nz = arrs(F(cfg, ES(np.full(N, CONSTS_R[0]), np.full(N, CONSTS_R[1]))))
-            chk(s, CONSTS_R[0], 'signal of es(const, noise=const)')
-            chk(nz if nz is not None else np.zeros(0), CONSTS_R[1], 'noise of es(const, noise=const)')
+            v0, v1 = CONSTS_R[0] * g[0], CONSTS_R[1] * g[1]
+            out = call(ES(np.full(N, v0), np.full(N, v1)))
+            if out is not None:
+                s, nz = arrs(out)
+                chk(s, v0, 'signal of es(const, noise=const)')
+                chk(nz if nz is not None else np.zeros(0), v1, 'noise of es(const, noise=const)')
     else:
         from opticomlib.typing import optical_signal as OS
         if cont == 'os1':
-            for v in CONSTS_C:
+            for j, v in enumerate(CONSTS_C):
+                v = v * g[j]
                 chk(arrs(F(cfg, OS(np.full(N, v, dtype=complex))))[0], v, f'1-pol const {v}')
         else:
-            s, nz = arrs(F(cfg, OS(np.array([np.full(N, 3.3 + 0j), np.full(N, 2 - 1j)]), np.array([np.full(N, -1 + 0j), np.full(N, 1j)]))))
+            v = (3.3 * g[0], (2 - 1j) * g[1], -1.0 * g[2], 1j * g[0])
+            s, nz = arrs(F(cfg, OS(np.array([np.full(N, v[0] + 0j), np.full(N, v[1])]), np.array([np.full(N, v[2] + 0j), np.full(N, v[3])]))))
             if s.shape != (2, N) or nz is None or nz.shape != (2, N):
                 fails.add(f'{dev}:length', f'2-pol output shapes {s.shape}')
             else:
-                chk(s[0], 3.3, 'signal row 0')
-                chk(s[1], 2 - 1j, 'signal row 1')
-                chk(nz[0], -1.0, 'noise row 0')
-                chk(nz[1], 1j, 'noise row 1')
+                chk(s[0], v[0], 'signal row 0')
+                chk(s[1], v[1], 'signal row 1')
+                chk(nz[0], v[2], 'noise row 0')
+                chk(nz[1], v[3], 'noise row 1')
     return fails, h.hexdigest(), 0.0, worst
 
 
@@ -429,9 +609,9 @@ def case_operator(case):
     M, v0 = ref_matrix(cfg, N)
     scale = float(np.max(np.abs(M))) or 1.0
     viol = []
-    first_kind = kind == ('nd-f64' if dev == 'LPF' else 'os1')
+    first_kind = kind in (('nd-f64', LPF_XKINDS[0]) if dev == 'LPF' else ('os1', BPF_XKINDS[0]))
     if first_kind:
-        viol += v0                       # problems of the reference path are reported once per configuration
+        viol += v0                       # problems of the reference path are reported once per configuration and part
     if isinstance(kind, str):
         fails, dig, w, wc = run_basis(cfg, N, kind, M, scale)
     elif kind[0] == 'lin':
@@ -440,7 +620,7 @@ def case_operator(case):
         fails, dig, w, wc = run_const(cfg, N, kind)
     viol += fails.viol(f'cfg={cfg} N={N} kind={kind}')
     filters = float(np.max(np.abs(M - np.eye(N)))) > 1e-3
-    calls = N if isinstance(kind, str) else 4
+    calls = N if isinstance(kind, str) else 2
     return res(viol=viol, obs=(dig, round(scale, 9)), nontrivial=(cfg, N, kind) if filters else False,
                stats={'filter_calls': calls, 'basis_responses_compared': N if isinstance(kind, str) else 0},
                payload={'lin': w, 'const': wc, 'Mmax': scale})
@@ -458,10 +638,34 @@ def pulses(N):
     return {'impulse': imp, 'rect9': rect, 'tri17': tri}
 
 
+def split_kind(kind):
+    """kind of the zerophase / tone parts: 'cont' | 'cont-retH' | (cont, 'amp', i) | (cont, 'ripple', i)
+    -> (container, retH mode?, ext or None)"""
+    ext = None
+    if not isinstance(kind, str):
+        kind, ext = kind[0], tuple(kind[1:])
+    if kind.endswith('-retH'):
+        return kind[:-5], True, ext
+    return kind, False, ext
+
+
+def mode_call(cfg, inp, reth, fails):
+    """the block in plain or in retH=True mode -> output container (None when retH mode did not return a pair)"""
+    if not reth:
+        return F(cfg, inp)
+    r = F(cfg, inp, retH=True)
+    if not (isinstance(r, tuple) and len(r) == 2):
+        fails.add('LPF:retH:grid', 'retH=True did not return (output, H)')
+        return None
+    return r[0]
+
+
 def case_zerophase(case):
     cfg, kind = case
     setup(cfg)
     dev, n, c, fs, src = cfg
+    cont, reth, ext = split_kind(kind)
+    g = [1.0, 1.0, 1.0] if ext is None else [amp(ext[1], j) for j in range(3)]       # symmetry is judged relative to the peak
     N = N_SYM
     ctr = N // 2
     L = min(ctr, int(6 / c + 50))
@@ -472,22 +676,25 @@ def case_zerophase(case):
     resp = []                    # (label, response array, is_impulse)
     if dev == 'LPF':
         from opticomlib.typing import electrical_signal as ES
-        if kind == 'nd':
+        if cont == 'nd':
             for nm, p in P.items():
-                resp.append((nm, arrs(F(cfg, p.copy()))[0], nm == 'impulse'))
+                out = mode_call(cfg, g[0] * p, reth, fails)
+                if out is not None:
+                    resp.append((nm, arrs(out)[0], nm == 'impulse'))
         else:
-            s, nz = arrs(F(cfg, ES(P['rect9'].copy(), P['impulse'].copy())))
-            resp += [('rect9 (signal)', s, False), ('impulse (noise)', nz, True)]
-            s, nz = arrs(F(cfg, ES(P['impulse'].copy(), P['tri17'].copy())))
-            resp += [('impulse (signal)', s, True), ('tri17 (noise)', nz, False)]
+            for (na, nb) in (('rect9', 'impulse'), ('impulse', 'tri17')):
+                out = mode_call(cfg, ES(g[0] * P[na], g[1] * P[nb]), reth, fails)
+                if out is not None:
+                    s, nz = arrs(out)
+                    resp += [(f'{na} (signal)', s, na == 'impulse'), (f'{nb} (noise)', nz, nb == 'impulse')]
     else:
         from opticomlib.typing import optical_signal as OS
         z = 1 + 0.5j
-        if kind == 'os1':
+        if cont == 'os1':
             for nm, p in P.items():
-                resp.append((nm, arrs(F(cfg, OS(z * p)))[0], nm == 'impulse'))
+                resp.append((nm, arrs(F(cfg, OS(g[0] * z * p)))[0], nm == 'impulse'))
         else:
-            s, nz = arrs(F(cfg, OS(np.array([z * P['impulse'], 1j * P['rect9']]), np.array([P['tri17'] + 0j, -z * P['impulse']]))))
+            s, nz = arrs(F(cfg, OS(np.array([g[0] * z * P['impulse'], 1j * g[1] * P['rect9']]), np.array([g[2] * P['tri17'] + 0j, -z * g[0] * P['impulse']]))))
             if s.shape != (2, N) or nz is None or nz.shape != (2, N):
                 fails.add(f'{dev}:length', f'2-pol output shapes {s.shape}')
             else:
@@ -520,9 +727,16 @@ def ladder(c, N=N_TONE):
 
 
 def case_tone(case):
+    """kind: see split_kind.  Amplitude members: the tones are multiplied by the amplitude and the gain is taken relative
+    to it (every absolute slack is multiplied by the amplitude, resp. its square for powers).  Ripple members: the tone
+    rides on a DC level, x = D + e*tone, and the gain is that of the ripple, (y - D)/(e*tone); the DC level contributes
+    its own rounding TOL_CONST*|D| (this also covers the eps*|D| representation error of D + e*tone), i.e.
+    TOL_CONST*|D/e| on the gain, which is added to the slack of every gain comparison."""
     cfg, kind = case
     setup(cfg)
     dev, n, c, fs, src = cfg
+    cont, reth, ext = split_kind(kind)
+    cplx = dev == 'BPF'
     N = N_TONE
     t = np.arange(N)
     mid = slice(N // 4, 3 * N // 4)
@@ -531,51 +745,78 @@ def case_tone(case):
     tones = [('grid', k, k / N) for k in ks] + [('exact-cutoff', None, c)]
     fails = Fails()
     h = hashlib.sha256()
-    meas = {'flat': 0.0, 'phase': 0.0, 'cut_dev_dB': 0.0, 'reth2': 0.0}
+    kf, kp = ('flat', 'phase') if ext is None else (f'flat:{ext[0]}', f'phase:{ext[0]}')
+    meas = {kf: 0.0, kp: 0.0, 'cut_dev_dB': 0.0, 'reth2': 0.0}
     calls = 0
     suffix = ':fs-arg' if src == 'arg' else ''
+    sfx = (':retH-mode' if reth else '') + ('' if ext is None else f':{ext[0]}')
     if dev == 'LPF':
         from opticomlib.typing import electrical_signal as ES
     else:
         from opticomlib.typing import optical_signal as OS
 
+    # per component j of one call: DC level D_j, amplitude e_j
+    def comp(j):
+        if ext is None:
+            return 0.0, 1.0
+        if ext[0] == 'amp':
+            return 0.0, amp(ext[1], j)
+        return ripple(ext[1], j, cplx)
+
+    C = [comp(j) for j in range(4)]
+    tol = TOL_FLAT + max(TOL_CONST * abs(D / e) for D, e in C)
+
     def gains_of(f):
-        """-> list of (label, pointwise complex gain on the middle half, input power, output power)"""
+        """-> list of (label, pointwise complex gain on the middle half, input power, output power) ; powers are
+        relative to the squared amplitude and None for ripple members (the power of D + ripple is not that of a tone)"""
         nonlocal calls
         ex = np.exp(2j * np.pi * f * t)
         out = []
         if dev == 'LPF':
             co, si = ex.real.copy(), ex.imag.copy()
-            if kind == 'nd':
-                yc = arrs(F(cfg, co))[0]
-                ys = arrs(F(cfg, si))[0]
+            if cont == 'nd':
+                (D0, e0), (D1, e1) = C[0], C[0]
+                oc = mode_call(cfg, D0 + e0 * co, reth, fails)
+                os_ = mode_call(cfg, D0 + e0 * si, reth, fails)
                 calls += 2
+                if oc is None or os_ is None:
+                    return out
+                yc, ys = arrs(oc)[0], arrs(os_)[0]
             else:
-                yc, ys = arrs(F(cfg, ES(co, si)))
+                (D0, e0), (D1, e1) = C[0], C[1]
+                o = mode_call(cfg, ES(D0 + e0 * co, D1 + e1 * si), reth, fails)
                 calls += 1
+                if o is None:
+                    return out
+                yc, ys = arrs(o)
             if np.shape(yc) != (N,) or ys is None or np.shape(ys) != (N,):
                 fails.add(f'{dev}:length', f'f={f}: output shapes {np.shape(yc)}')
                 return out
-            out.append(('cos+i*sin', ((yc + 1j * ys) / ex)[mid], np.mean(co[mid] ** 2), np.mean(yc[mid] ** 2)))
+            gc, gs = (yc - D0) / e0, (ys - D1) / e1
+            pw = (None, None) if ext is not None and ext[0] == 'ripple' else (float(np.mean(co[mid] ** 2)), float(np.mean(gc[mid] ** 2)))
+            out.append(('cos+i*sin', ((gc + 1j * gs) / ex)[mid], pw[0], pw[1]))
         else:
             exm = np.conj(ex)
-            if kind == 'os1':
-                yp = arrs(F(cfg, OS(ex.copy())))[0]
-                ym = arrs(F(cfg, OS(exm.copy())))[0]
+            if cont == 'os1':
+                D0, e0 = C[0]
+                yp = arrs(F(cfg, OS(D0 + e0 * ex)))[0]
+                ym = arrs(F(cfg, OS(D0 + e0 * exm)))[0]
                 calls += 2
-                rows = [('+f', yp, ex), ('-f', ym, exm)]
+                rows = [('+f', yp, ex, C[0]), ('-f', ym, exm, C[0])]
             else:
-                s, nz = arrs(F(cfg, OS(np.array([ex, exm]), np.array([exm, ex]))))
+                s, nz = arrs(F(cfg, OS(np.array([C[0][0] + C[0][1] * ex, C[1][0] + C[1][1] * exm]), np.array([C[2][0] + C[2][1] * exm, C[3][0] + C[3][1] * ex]))))
                 calls += 1
                 if s.shape != (2, N) or nz is None or nz.shape != (2, N):
                     fails.add(f'{dev}:length', f'f={f}: 2-pol output shapes {s.shape}')
                     return out
-                rows = [('+f signal row 0', s[0], ex), ('-f signal row 1', s[1], exm), ('-f noise row 0', nz[0], exm), ('+f noise row 1', nz[1], ex)]
-            for lab, y, x in rows:
+                rows = [('+f signal row 0', s[0], ex, C[0]), ('-f signal row 1', s[1], exm, C[1]), ('-f noise row 0', nz[0], exm, C[2]), ('+f noise row 1', nz[1], ex, C[3])]
+            for lab, y, x, (D, e) in rows:
                 if np.shape(y) != (N,):
                     fails.add(f'{dev}:length', f'f={f}: output shape {np.shape(y)}')
                     continue
-                out.append((lab, (y / x)[mid], 1.0, float(np.mean(np.abs(y[mid]) ** 2))))
+                g = (y - D) / (e * x)
+                pw = (None, None) if ext is not None and ext[0] == 'ripple' else (1.0, float(np.mean(np.abs(g[mid]) ** 2)))
+                out.append((lab, g[mid], pw[0], pw[1]))
         return out
 
     series = {}       # label -> list of (k, gain) along the grid ladder
@@ -583,34 +824,34 @@ def case_tone(case):
     for typ, k, f in tones:
         for lab, g, pin, pout in gains_of(f):
             if not np.all(np.isfinite(g)):
-                fails.add(f'{dev}:tone:non-finite', f'f={f:.6g}*fs {lab}')
+                fails.add(f'{dev}:tone:non-finite{sfx}', f'f={f:.6g}*fs {lab}')
                 continue
             A = complex(np.mean(g))
             flat = float(np.max(np.abs(g - A)))
             gain = abs(A)
-            h.update(np.array([A.real, A.imag]).round(13).tobytes())
-            meas['flat'] = max(meas['flat'], flat)
-            meas['phase'] = max(meas['phase'], abs(A.imag))
-            if flat > TOL_FLAT:
-                fails.add(f'{dev}:tone:not-stationary', f'f={f:.6g}*fs {lab}: pointwise gain varies by {flat:.3g} on the middle half', flat)
-            if abs(A.imag) > TOL_FLAT or (A.real < -TOL_FLAT):
-                fails.add(f'{dev}:tone:phase', f'f={f:.6g}*fs {lab}: gain {A:.6g} is not real positive (delay / phase shift)', abs(A.imag))
-            if gain > 1 + TOL_FLAT or pout > pin * (1 + TOL_FLAT) + 1e-18:
-                fails.add(f'{dev}:tone:gain>1', f'f={f:.6g}*fs {lab}: gain {gain:.9g}, power {pin:.6g} -> {pout:.6g}', gain - 1)
+            h.update(np.array([A.real, A.imag]).round(13 if ext is None else 6).tobytes())
+            meas[kf] = max(meas[kf], flat)
+            meas[kp] = max(meas[kp], abs(A.imag))
+            if flat > tol:
+                fails.add(f'{dev}:tone:not-stationary{sfx}', f'f={f:.6g}*fs {lab}: pointwise gain varies by {flat:.3g} on the middle half (allowed {tol:.3g})', flat)
+            if abs(A.imag) > tol or (A.real < -tol):
+                fails.add(f'{dev}:tone:phase{sfx}', f'f={f:.6g}*fs {lab}: gain {A:.6g} is not real positive (delay / phase shift)', abs(A.imag))
+            if gain > 1 + tol or (pin is not None and pout > pin * (1 + TOL_FLAT) + 1e-18):
+                fails.add(f'{dev}:tone:gain>1{sfx}', f'f={f:.6g}*fs {lab}: gain {gain:.9g}, power (relative to the amplitude) {pin} -> {pout}', gain - 1)
             if typ == 'grid':
                 series.setdefault(lab, []).append((k, gain))
             if typ == 'exact-cutoff' or k == kc:
                 dB = 20 * np.log10(gain) if gain > 0 else -np.inf
-                cut.append(round(float(dB), 6))
+                cut.append(round(float(dB), 6 if ext is None else 3))
                 dev_dB = abs(dB + 6.0)
                 meas['cut_dev_dB'] = max(meas['cut_dev_dB'], float(dev_dB) if np.isfinite(dev_dB) else 999.0)
                 if not dev_dB <= BAND_DB:
-                    fails.add(f'{dev}:cutoff-6dB{suffix}', f'tone at {f:.6g}*fs ({typ}, cutoff {c}*fs) {lab}: {dB:.3f} dB, expected -6.0 +- {BAND_DB}', float(dev_dB) if np.isfinite(dev_dB) else 999.0)
+                    fails.add(f'{dev}:cutoff-6dB{suffix}{sfx}', f'tone at {f:.6g}*fs ({typ}, cutoff {c}*fs) {lab}: {dB:.3f} dB, expected -6.0 +- {BAND_DB}', float(dev_dB) if np.isfinite(dev_dB) else 999.0)
     for lab, sr in series.items():
         gs = [g for _, g in sr]
         for i in range(len(gs) - 1):
-            if gs[i + 1] > gs[i] + TOL_FLAT:
-                fails.add(f'{dev}:tone:not-monotone', f'{lab}: gain rises from {gs[i]:.9g} at k={sr[i][0]} to {gs[i+1]:.9g} at k={sr[i+1][0]}', gs[i + 1] - gs[i])
+            if gs[i + 1] > gs[i] + tol:
+                fails.add(f'{dev}:tone:not-monotone{sfx}', f'{lab}: gain rises from {gs[i]:.9g} at k={sr[i][0]} to {gs[i+1]:.9g} at k={sr[i+1][0]}', gs[i + 1] - gs[i])
     # retH against the measured two-pass gains (LPF, grid tones)
     if dev == 'LPF' and kind == 'nd' and series:
         out, H = F(cfg, np.cos(2 * np.pi * c * t), retH=True)
@@ -675,10 +916,16 @@ def case_reth(case):
     import scipy.signal as sg
     from opticomlib.typing import electrical_signal as ES
     fails = Fails()
-    x = np.cos(2 * np.pi * 3 * np.arange(N) / N)
-    inp = x if cont == 'nd' else ES(x, 0.1 * x[::-1].copy())
+    # cont = 'nd' | 'es+noise' | (same, i): the record (and, differently, its noise) on member i of the amplitude axis
+    g = (1.0, 0.1)
+    if not isinstance(cont, str):
+        g = (amp(cont[1]), amp(cont[1], 1))
+        cont = cont[0]
+    x = g[0] * np.cos(2 * np.pi * 3 * np.arange(N) / N)
+    xn = g[1] * np.cos(2 * np.pi * 3 * np.arange(N) / N)[::-1].copy()
+    inp = x if cont == 'nd' else ES(x, xn)
     r = F(cfg, inp, retH=True)
-    meas = {'cf': 0.0, 'sp': 0.0}
+    meas = {'cf': 0.0, 'sp': 0.0, 'out': 0.0}
     if not (isinstance(r, tuple) and len(r) == 2):
         return res(viol=[('LPF:retH:grid', f'cfg={cfg}: retH=True did not return (output, H)')], obs='no-tuple')
     out, H = r
@@ -704,9 +951,18 @@ def case_reth(case):
     sig, noi = arrs(out)
     if sig.shape != (N,) or (cont != 'nd' and (noi is None or noi.shape != (N,))):
         fails.add('LPF:length', f'output shape {sig.shape} in retH mode')
+    else:
+        # the filtered record of retH mode is the filtered record of plain mode, component by component (the components
+        # are filtered independently, so each equals the plain filtering of that array alone; bitwise on the pristine tree)
+        for nm, got, arr, a in (('signal', sig, x, g[0]),) + ((('noise', noi, xn, g[1]),) if cont != 'nd' else ()):
+            ref = arrs(F(cfg, arr.copy()))[0]
+            e = float(np.max(np.abs(got - ref))) / a if ref.shape == (N,) else np.inf
+            meas['out'] = max(meas['out'], e)
+            if not e <= TOL_LIN:
+                fails.add(f'LPF:retH:output:{nm}-path', f'{nm} component returned in retH mode differs from LPF of that array in plain mode by {e:.3g} of its amplitude', e)
     obs = hashlib.sha256(np.ascontiguousarray(H).tobytes()).hexdigest() if H.dtype != object else 'object'
-    return res(viol=fails.viol(f'cfg={cfg} N={N} input={cont}'), obs=obs, nontrivial=(cfg, N, cont),
-               stats={'filter_calls': 1, 'reth_points': int(H.size)}, payload=meas)
+    return res(viol=fails.viol(f'cfg={cfg} N={N} input={case[2]}'), obs=obs, nontrivial=(cfg, N, case[2]),
+               stats={'filter_calls': 3 if cont != 'nd' else 2, 'reth_points': int(H.size)}, payload=meas)
 
 
 # --------------------------------------------------------------------------- driver
@@ -734,6 +990,37 @@ def op_kinds(dev):
     return ks
 
 
+def op_xkinds(dev):
+    """extended kinds of the operator part: mode x container (LPF retH), amplitude axis, ripple on a DC level -
+    complete basis through each, plus the superposition pairs (last coefficient pair) and the constants on the same axes"""
+    na = range(len(AMPS))
+    if dev == 'LPF':
+        ks = list(LPF_XKINDS)
+        ks += [('lin', cont, pair, ab) for cont in ('nd-retH', 'es+noise-retH') for pair in PAIRS for ab in COEF_R]
+        ks += [('lin', cont, pair, COEF_R[-1], ext) for cont in ('nd', 'es+noise', 'es+noise-retH') for pair in PAIRS for ext in EXTS]
+        ks += [('const', 'nd-retH'), ('const', 'es+noise-retH')]
+        ks += [('const', cont, i) for cont in ('nd', 'es+noise', 'es+noise-retH') for i in na]
+    else:
+        ks = list(BPF_XKINDS)
+        ks += [('lin', cont, pair, COEF_C[-1], ext) for cont in ('os1', 'os2+noise') for pair in PAIRS for ext in EXTS]
+        ks += [('const', cont, i) for cont in ('os1', 'os2+noise') for i in na]
+    return ks
+
+
+def wave_kinds(dev):
+    """kinds of the zerophase part and of the tone part"""
+    na = range(len(AMPS))
+    if dev == 'LPF':
+        base = ['nd', 'es+noise', 'nd-retH', 'es+noise-retH']
+        amps = [(c, 'amp', i) for c in ('nd', 'es+noise', 'es+noise-retH') for i in na]
+        rips = [(c, 'ripple', i) for c in ('nd', 'es+noise', 'es+noise-retH') for i in range(len(RIPPLES))]
+    else:
+        base = ['os1', 'os2+noise']
+        amps = [(c, 'amp', i) for c in base for i in na]
+        rips = [(c, 'ripple', i) for c in base for i in range(len(RIPPLES))]
+    return base + amps, base + amps + rips
+
+
 def _maxes(payloads):
     out = {}
     for p in payloads:
@@ -752,7 +1039,12 @@ def run(ctx):
              f'ndarray, electrical/optical container, noise present/absent/alone, complex dtype, 1-/2-pol, n_pol broadcast) with '
              f'permuted basis vectors in signal, noise and the two rows; every response must be the matching column of M. '
              f'Superposition pairs {list(PAIRS)} x coefficient pairs, constants, zero phase on {N_SYM} samples, 13-tone '
-             f'ladder on {N_TONE} samples, retH on N in {list(N_RETH)}')
+             f'ladder on {N_TONE} samples, retH on N in {list(N_RETH)}. EXTENDED axes, crossed with every part: amplitude '
+             f'{list(AMPS)} (judged relative to the amplitude; signal / noise / rows on different members in one call), '
+             f'ripple on a DC level (D, e/|D|) in {list(RIPPLES)}, and the LPF mode axis (every container kind with / without / '
+             f'only noise also in retH=True mode; fs=... mode is part of the configuration). Part operator-x pushes the '
+             f'complete basis through {len(LPF_XKINDS)} (LPF) / {len(BPF_XKINDS)} (BPF) such kinds for N in '
+             f'{list(N_EXT_QUICK) if ctx.quick else [N_SHORT] + list(N_OP)}')
     ctx.assume('scipy.signal.bessel is a pure function of its arguments (its result is memoised by the harness per worker; '
                'MCX_C11_NOMEMO=1 disables the memo); numpy/scipy arithmetic is IEEE double')
     ctx.assume('"away from the record edges" = middle half of a 4096-sample record (tones) and +-(6/fc+50) samples around the '
@@ -766,13 +1058,18 @@ def run(ctx):
         cases = [(cfg, N, kind, ctx.seed) for cfg in cfgs for N in n_op(cfg[1]) for kind in kinds]
         p = ctx.pmap(f'{dev}.operator', case_operator, cases, horizon=120, chunk=len(kinds))
         measured[f'{dev}.operator'] = _maxes(p)
-        zk = ('nd', 'es+noise') if dev == 'LPF' else ('os1', 'os2+noise')
+        xk = op_xkinds(dev)
+        cases = [(cfg, N, kind, ctx.seed) for cfg in cfgs for N in n_op(cfg[1]) if (not ctx.quick or N in N_EXT_QUICK) for kind in xk]
+        p = ctx.pmap(f'{dev}.operator-x', case_operator, cases, horizon=120, chunk=len(xk))
+        measured[f'{dev}.operator-x'] = _maxes(p)
+        zk, tk = wave_kinds(dev)
         p = ctx.pmap(f'{dev}.zerophase', case_zerophase, [(cfg, k) for cfg in cfgs for k in zk], horizon=60)
         measured[f'{dev}.zerophase'] = _maxes(p)
-        p = ctx.pmap(f'{dev}.tone', case_tone, [(cfg, k) for cfg in cfgs for k in zk], horizon=60)
+        p = ctx.pmap(f'{dev}.tone', case_tone, [(cfg, k) for cfg in cfgs for k in tk], horizon=60)
         measured[f'{dev}.tone'] = _maxes(p)
         if dev == 'LPF':
-            p = ctx.pmap('LPF.retH', case_reth, [(cfg, N, cont) for cfg in cfgs for N in N_RETH for cont in ('nd', 'es+noise')], horizon=60)
+            rk = ['nd', 'es+noise'] + [(c, i) for c in ('nd', 'es+noise') for i in range(len(AMPS))]
+            p = ctx.pmap('LPF.retH', case_reth, [(cfg, N, cont) for cfg in cfgs for N in N_RETH for cont in rk], horizon=60)
             measured['LPF.retH'] = _maxes(p)
     ctx.extra['measured_max_errors'] = measured
     ctx.extra['tolerances'] = {'lin': TOL_LIN, 'const': TOL_CONST, 'sym': TOL_SYM, 'flat/phase/mono': TOL_FLAT, 'cutoff_band_dB': BAND_DB,
